@@ -19,6 +19,10 @@ Small == Judged /\ X.n <= BigInput
 \* JSON terms carry k/b or k/items exactly like the spec's terms
 Expected == DecodeAll(X["in"])
 
+\* "For every supported value, decoding its encoding returns an equal value" - and the encoding is the one the specification defines,
+\* through every encoder entry point
+EncT == X.e = "enc" => (X.panic = "" /\ ~X.err /\ X.bytes = Enc(X.term) /\ X.writer = X.bytes /\ X.reader = X.bytes /\ X.roundtrip)
+
 \* "decoding either fails with an error or yields a value whose encoding is that byte string exactly"
 VerdictT == Small => (X.ok <=> Expected.ok)
 TermT == (Small /\ X.ok) => X.term = Expected.term
